@@ -19,6 +19,7 @@ type propOwner struct {
 	stale  func() bool                  // handles: does Column(n) now return a different pointer?
 	cell   *tabular.Cell                // copies: the caller-owned cell value
 	sizes  map[string]int               // printed size of the stored state, per set of keys held
+	regs   []*SimCallback               // copies: cell-owned registrations the value carries
 }
 
 func (p *propOwner) model() *propOwner {
@@ -154,7 +155,7 @@ func clonePropMap(m map[interface{}]interface{}) map[interface{}]interface{} {
 //	takeHandle A column number: keep t.Column(n) for later
 func (w *World) DoProp(st *Step) bool {
 	switch st.Op {
-	case "setProp", "copyCell", "addCopy", "takeHandle":
+	case "setProp", "copyCell", "addCopy", "takeHandle", "nestCell", "updateCell":
 	default:
 		return false
 	}
@@ -249,8 +250,12 @@ func (w *World) DoProp(st *Step) bool {
 			return fmt.Sprintf("%#v", hold)
 		}
 		o.cell = hold
+		o.regs = append([]*SimCallback(nil), src.regs...)
 		w.extraOwn = append(w.extraOwn, o)
 		w.probe("cell_copied")
+		if len(o.regs) > 0 {
+			w.probe("cell_copied_with_callbacks")
+		}
 		if o.shares {
 			w.probe("cell_copied_with_properties")
 		}
@@ -273,7 +278,7 @@ func (w *World) DoProp(st *Step) bool {
 		}
 		// the stored cell holds the same item as the copy; give it a fresh identity in the model
 		w.nextItem++
-		mc := &mCell{itemID: w.nextItem, item: src.cell.Item()}
+		mc := &mCell{itemID: w.nextItem, item: src.cell.Item(), regs: append([]*SimCallback(nil), src.regs...)}
 		w.itemCell[mc.itemID] = mc
 		w.expectRowAdd(h, mc)
 		h.real.Add(*src.cell)
@@ -287,6 +292,49 @@ func (w *World) DoProp(st *Step) bool {
 			w.syncColumns()
 		}
 		w.probe("copy_added_to_row")
+	case "nestCell", "updateCell":
+		var all []*mCell
+		for _, h := range w.handles {
+			if h.real != nil {
+				all = append(all, h.cells...)
+			}
+		}
+		i := pick(len(all), st.A)
+		if i < 0 {
+			return true
+		}
+		src := all[len(all)-1-i]
+		p := w.livePtr(src)
+		if p == nil {
+			return true
+		}
+		if st.Op == "updateCell" {
+			p.Update() // re-reads the item; must not touch properties
+			w.probe("cell_updated")
+			return true
+		}
+		// a cell used as the ITEM of a new cell: the new cell is a new owner with no properties
+		j := pick(len(w.handles), st.B)
+		h := w.handles[len(w.handles)-1-j]
+		if h.real == nil {
+			return true
+		}
+		w.nextItem++
+		mc := &mCell{itemID: w.nextItem}
+		w.itemCell[mc.itemID] = mc
+		w.expectRowAdd(h, mc)
+		h.real.Add(tabular.NewCell(*p))
+		if cells := h.real.Cells(); len(cells) > 0 {
+			mc.item = cells[len(cells)-1].Item()
+		}
+		h.cells = append(h.cells, mc)
+		if h.attached {
+			w.syncColumns()
+		}
+		w.probe("cell_nested_in_cell")
+		if len(w.cellOwner(src).vals) > 0 {
+			w.probe("nested_cell_had_properties")
+		}
 	case "takeHandle":
 		n := pick(w.Core.NColumns()+1, st.A)
 		c := w.Tab.Column(n)
